@@ -80,7 +80,13 @@ class Ctx:
         os.makedirs(self.bindir)
         # when checking a repository other than /repo (mutation testing), work on a
         # private copy of the Coq tree so that /verif/coq/gen keeps describing /repo
-        if os.path.realpath(REPO) != "/repo" or os.environ.get("VERIF_PRIVATE_COQ"):
+        if tier == "thorough" and not os.environ.get("VERIF_NO_CLEAN"):
+            # thorough = full rebuild from sources in a private directory (never delete the
+            # shared .vo files another check may be reading)
+            self.coqdir = os.path.join(self.scratch, "coq")
+            shutil.copytree(os.path.join(VERIF, "coq"), self.coqdir, symlinks=True,
+                            ignore=shutil.ignore_patterns("*.vo", "*.vos", "*.vok", "*.glob", ".*.aux", "Makefile.coq*", ".Makefile.coq.d", "_CoqProject", ".lock"))
+        elif os.path.realpath(REPO) != "/repo" or os.environ.get("VERIF_PRIVATE_COQ"):
             self.coqdir = os.path.join(self.scratch, "coq")
             shutil.copytree(os.path.join(VERIF, "coq"), self.coqdir, symlinks=True)
         else:
@@ -152,7 +158,7 @@ def coq_files(coqdir):
 
 def coq_make(ctx, targets, jobs=8, timeout=1500):
     cd = ctx.coqdir
-    lock = open(os.path.join(cd, ".lock"), "w")
+    lock = open(os.path.join(cd, ".lock"), "a")
     fcntl.flock(lock, fcntl.LOCK_EX)
     try:
         proj = "-Q . NSQV\n" + "\n".join(coq_files(cd)) + "\n"
@@ -196,11 +202,27 @@ def count_obligations(ctx, files):
     return names
 
 
+class CoqLock:
+    """exclusive while building, shared while reading the compiled files"""
+    def __init__(self, ctx, shared):
+        self.f = open(os.path.join(ctx.coqdir, ".lock"), "a")
+        self.mode = fcntl.LOCK_SH if shared else fcntl.LOCK_EX
+
+    def __enter__(self):
+        fcntl.flock(self.f, self.mode)
+        return self
+
+    def __exit__(self, *a):
+        fcntl.flock(self.f, fcntl.LOCK_UN)
+        self.f.close()
+
+
 def print_assumptions(ctx, props_v):
     """compile the property file on its own and parse the Print Assumptions output"""
     cd = ctx.coqdir
     tmp_vo = os.path.join(ctx.scratch, os.path.basename(props_v) + "o")
-    rc, out = sh(["coqc", "-Q", ".", "NSQV", "-o", tmp_vo, props_v], cwd=cd, timeout=600)
+    with CoqLock(ctx, shared=True):
+        rc, out = sh(["coqc", "-Q", ".", "NSQV", "-o", tmp_vo, props_v], cwd=cd, timeout=600)
     src = strip_comments(open(os.path.join(cd, props_v)).read())
     asked = re.findall(r"Print\s+Assumptions\s+([\w'.]+)\s*\.", src)
     blocks = re.split(r"(?=Closed under the global context|Axioms:)", out)
@@ -299,7 +321,7 @@ def judge_cases(ctx, cases, judge_mod, judge_fn, imports=(), scope="N_scope"):
 
     failures = {}
     errtxt = ""
-    with ThreadPoolExecutor(max_workers=8) as ex:
+    with CoqLock(ctx, shared=True), ThreadPoolExecutor(max_workers=8) as ex:
         for si, rc, out in ex.map(one, jobs):
             if rc != 0 or "R =" not in out:
                 errtxt += "shard %d: coqc rc=%d\n%s\n" % (si, rc, out[-3000:])
@@ -411,14 +433,6 @@ def run(plugin, tier, seed, replay_path=None):
     targets = list(plugin.COQ_TARGETS)
     props_v = plugin.PROPS_FILE
     thorough = tier == "thorough"
-    if thorough and ctx.coqdir == os.path.join(VERIF, "coq") and not os.environ.get("VERIF_NO_CLEAN"):
-        # full rebuild of the cone
-        for f in cone(ctx, props_v) + sum([cone(ctx, t[:-1]) for t in targets], []):
-            for ext in ("vo", "glob", "vos", "vok"):
-                try:
-                    os.remove(os.path.join(ctx.coqdir, f[:-1] + ext))
-                except OSError:
-                    pass
     files = sorted(set(cone(ctx, props_v) + sum([cone(ctx, t[:-1]) for t in targets], [])))
     for f in files:
         if f.startswith("gen/") and os.path.exists(os.path.join(ctx.coqdir, f + ".err")):
